@@ -163,6 +163,7 @@ package transform
 //@ end
 //@ -- canonical case: zoom and loop counter are case-split, so every step is a small linear fact
 //@ case convertHorizontalIDToQuadkey canonical
+//@   props C11
 //@   shape horizontalID hid gz gx gy
 //@   split gz 1..31
 //@   split i 0..31
@@ -186,6 +187,7 @@ package transform
 //@ -- zoom, digit count and loop index are case-split ($idx is the range index, -1 before the first digit);
 //@ -- a key below 4^zoom has at most zoom digits
 //@ case convertQuadkeyToHorizontalID in-range
+//@   props C11
 //@   split zoom 1..31
 //@   split $ndigits 1..zoom
 //@   split $idx -1..$ndigits-1
@@ -234,9 +236,15 @@ package transform
 //@ define xw(h, v) = ite(v >= h, pow2(v - h), 1)
 //@ func ConvertExtendedSpatialIDToSpatialIDs
 //@   props C10 C13 C15
+//@   nooverflow
+//@   requires extendedSpatialID != nil && 0 <= extendedSpatialID.hZoom && extendedSpatialID.hZoom <= 35 && 0 <= extendedSpatialID.vZoom && extendedSpatialID.vZoom <= 35
+//@ end
+//@ case ConvertExtendedSpatialIDToSpatialIDs valid
+//@   props C10 C13
 //@   split extendedSpatialID.hZoom 0..35
 //@   split extendedSpatialID.vZoom 0..35
 //@   quickstride 16
+//@   loopframe
 //@   requires extendedSpatialID != nil
 //@   requires 0 <= extendedSpatialID.x && extendedSpatialID.x < pow2(extendedSpatialID.hZoom) && 0 <= extendedSpatialID.y && extendedSpatialID.y < pow2(extendedSpatialID.hZoom) && 0 - pow2(extendedSpatialID.vZoom) <= extendedSpatialID.z && extendedSpatialID.z < pow2(extendedSpatialID.vZoom)
 //@   ensures [finer-vertical] extendedSpatialID.hZoom < extendedSpatialID.vZoom ==> len(r0) == xw(extendedSpatialID.hZoom, extendedSpatialID.vZoom) * xw(extendedSpatialID.hZoom, extendedSpatialID.vZoom) && (forall k :: 0 <= k && k < len(r0) ==> r0[k] == sid(extendedSpatialID.vZoom, extendedSpatialID.z, extendedSpatialID.x * xw(extendedSpatialID.hZoom, extendedSpatialID.vZoom) + fdiv(k, xw(extendedSpatialID.hZoom, extendedSpatialID.vZoom)), extendedSpatialID.y * xw(extendedSpatialID.hZoom, extendedSpatialID.vZoom) + fmod(k, xw(extendedSpatialID.hZoom, extendedSpatialID.vZoom))))
@@ -245,4 +253,21 @@ package transform
 //@   loop 0 invariant xMin <= x && x <= xMax + 1 && len(spatialIds) == (x - xMin) * xw(extendedSpatialID.hZoom, extendedSpatialID.vZoom) && (forall k :: 0 <= k && k < len(spatialIds) ==> spatialIds[k] == sid(extendedSpatialID.vZoom, extendedSpatialID.z, xMin + fdiv(k, xw(extendedSpatialID.hZoom, extendedSpatialID.vZoom)), yMin + fmod(k, xw(extendedSpatialID.hZoom, extendedSpatialID.vZoom))))
 //@   loop 1 invariant xMin <= x && x <= xMax && yMin <= y && y <= yMax + 1 && len(spatialIds) == (x - xMin) * xw(extendedSpatialID.hZoom, extendedSpatialID.vZoom) + (y - yMin) && (forall k :: 0 <= k && k < len(spatialIds) ==> spatialIds[k] == sid(extendedSpatialID.vZoom, extendedSpatialID.z, xMin + fdiv(k, xw(extendedSpatialID.hZoom, extendedSpatialID.vZoom)), yMin + fmod(k, xw(extendedSpatialID.hZoom, extendedSpatialID.vZoom))))
 //@   loop 2 invariant len(spatialIds) == $i && (forall k :: 0 <= k && k < $i ==> spatialIds[k] == sid(extendedSpatialID.hZoom, extendedSpatialID.z * xw(extendedSpatialID.vZoom, extendedSpatialID.hZoom) + k, extendedSpatialID.x, extendedSpatialID.y))
+//@ end
+
+//@ -- C15 sweeps of the remaining list conversions (no panic, documented errors)
+//@ func ConvertTileXYZsToSpatialIDs
+//@   props C13 C15
+//@   nooverflow
+//@   requires offok(zBaseOffset) && 0 <= zBaseExponent && zBaseExponent <= 35
+//@   requires forall k :: 0 <= k && k < len(request) ==> request[k] != nil && 0 <= request[k].vZoom && request[k].vZoom <= 35
+//@   ensures [nil-on-error] r1 != nil ==> len(r0) == 0
+//@ end
+
+//@ func ConvertExtendedSpatialIDsToQuadkeysAndAltitudekeys
+//@   props C11 C15
+//@   nooverflow
+//@   requires offok(zBaseOffset) && 0 <= zBaseExponent && zBaseExponent <= 35
+//@   ensures [err-zoom] !(1 <= outputQuadkeyZoom && outputQuadkeyZoom <= 31 && 0 <= outputAltitudekeyZoom && outputAltitudekeyZoom <= 35) ==> r1 != nil && len(r0) == 0
+//@   ensures [err-malformed] (exists k :: 0 <= k && k < len(extendedSpatialIDs) && !isext(extendedSpatialIDs[k])) && (1 <= outputQuadkeyZoom && outputQuadkeyZoom <= 31 && 0 <= outputAltitudekeyZoom && outputAltitudekeyZoom <= 35) ==> r1 != nil
 //@ end
